@@ -11,7 +11,7 @@ import WmModel.Lemmas.Mw
 namespace Wm.Mw
 
 /-- a concrete message state used by the non-vacuity examples -/
-def exSt (script : List Res) : St := ⟨⟨0, false, false⟩, [(cidKey, "id-7"), ("k", "v")], .absent, false, false, 0, script, [], none⟩
+def exSt (script : List Res) : St := ⟨⟨0, false, false, false⟩, [(cidKey, "id-7"), ("k", "v")], .absent, false, false, 0, script, [], none, false⟩
 
 /-! ## Timeout -/
 
@@ -29,10 +29,11 @@ theorem timeout_transparent (e : Bool) (h : Handler) (st : St) :
     the call, so it is done afterwards only if it was done before. -/
 theorem timeout_deadline_visible_and_restored (e : Bool) (h : Handler) (st : St) :
     (deriveCtx st.ctx e).deadline = true ∧
+    (deriveCtx st.ctx e).far = false ∧
     (deriveCtx st.ctx e) ≠ st.ctx ∧
     (apply (.timeout e) h st).2.ctx = st.ctx ∧
     ((apply (.timeout e) h st).2.ctx.done = true → st.ctx.done = true) := by
-  refine ⟨rfl, ?_, ?_, ?_⟩
+  refine ⟨rfl, rfl, ?_, ?_, ?_⟩
   · intro hc
     have := congrArg Ctx.depth hc
     simp [deriveCtx] at this
@@ -40,7 +41,7 @@ theorem timeout_deadline_visible_and_restored (e : Bool) (h : Handler) (st : St)
   · simp [applyC, timeout]
 
 example : (apply (.timeout false) scripted (exSt [.panic .nil])) =
-    (.panic .nil, { exSt [.panic .nil] with log := [⟨true, false, false, .absent⟩] }) := by decide
+    (.panic .nil, { exSt [.panic .nil] with log := [⟨true, false, false, .absent, false, false⟩] }) := by decide
 
 /-- witness of D2 (the unrepaired Timeout): the context is left done, and `Retry` around it stops after one
     attempt where its own rule gives three -/
@@ -150,10 +151,14 @@ example : (apply (.ignoreErrors ["boom"]) scripted (exSt [.ret [] (some (.fmtWra
 
 /-! ## InstantAck, Throttle, closed CircuitBreaker -/
 
-/-- **Ack before the call**: the handler is invoked on the already acknowledged message, and that is all -/
+/-- **Ack before the call**: the handler is invoked on the message after `Ack()` – acknowledged, unless a Nack had been
+    sent on it before (then `Ack()` changes nothing) – and that is all: the handler is called in both cases and its
+    result is the chain's. -/
 theorem instant_ack_before_call (h : Handler) (st : St) :
-    apply .instantAck h st = h { st with acked := true } ∧ ({ st with acked := true } : St).acked = true :=
-  ⟨rfl, rfl⟩
+    apply .instantAck h st = h (ackMsg st) ∧
+    (st.nacked = false → (ackMsg st) = { st with acked := true } ∧ (ackMsg st).acked = true) ∧
+    (st.nacked = true → ackMsg st = st) := by
+  refine ⟨rfl, ?_, ?_⟩ <;> intro hn <;> simp [ackMsg, hn]
 
 /-- **Throttle is transparent**: it waits for one tick, then the handler's result and effects are the chain's -/
 theorem throttle_transparent (h : Handler) (st : St) :
@@ -162,7 +167,7 @@ theorem throttle_transparent (h : Handler) (st : St) :
 /-- **a closed CircuitBreaker is transparent** (results, errors and panics alike) -/
 theorem breaker_transparent (h : Handler) (st : St) : apply .breaker h st = h st := rfl
 
-example : (apply .instantAck scripted (exSt [.ret [] none])).2.log = [⟨false, false, true, .absent⟩] := by decide
+example : (apply .instantAck scripted (exSt [.ret [] none])).2.log = [⟨false, false, true, .absent, false, false⟩] := by decide
 
 /-- a message whose context is already done (cancelled, or under a Timeout outside the Throttle that expired) still
     takes its tick: the handler is started on the state with one more tick consumed, whatever the context -/
@@ -174,7 +179,7 @@ theorem throttle_takes_tick_whatever_the_context (h : Handler) (st : St) :
   constructor <;> rfl
 
 example : (run [.timeout true, .throttle] scripted (exSt [.ret [] none])).2.ticks = 1 ∧
-    (run [.timeout true, .throttle] scripted (exSt [.ret [] none])).2.log = [⟨true, true, false, .absent⟩] := by decide +kernel
+    (run [.timeout true, .throttle] scripted (exSt [.ret [] none])).2.log = [⟨true, true, false, .absent, false, false⟩] := by decide +kernel
 
 /-- candidate finding "breaker+panicnil": with the legacy behaviour of the library a handler's `panic(nil)` is reported as
     success, where the transparent breaker of the model (and of the statement) lets the panic through -/
@@ -361,6 +366,74 @@ example : (List.range 3).map (delayAt ⟨7, 100, 5, 2⟩) = [7, 17, 42] ∧ gapB
 theorem Old.delay_fraction_truncated :
     Old.applyDelay ⟨1000, 100000, 3, 2⟩ (.ns 1000) = 1000 ∧ Wm.Mw.applyDelay ⟨1000, 100000, 3, 2⟩ (.ns 1000) = 1500 := by decide
 
+/-- **no middleware invents a panic**: around a handler that never panics no chain of the simple middlewares panics –
+    whatever the error values are (comparable or not, wrapped or not) and whatever state the message is in -/
+theorem simple_never_introduces_panic (m : Mw) (hm : m.isRetry = false) (h : Handler)
+    (hh : ∀ st v, (h st).1 ≠ .panic v) (st : St) (v : PVal) : (apply m h st).1 ≠ .panic v := by
+  cases m with
+  | retry n => simp [Mw.isRetry] at hm
+  | timeout e => simpa [applyC, timeout] using hh _ v
+  | instantAck => simpa [applyC, instantAck] using hh _ v
+  | throttle => simpa [applyC, throttle] using hh _ v
+  | breaker => simpa [applyC, breaker] using hh _ v
+  | correlation =>
+    have h1 := hh st
+    simp only [applyC, correlation]
+    generalize h st = x at h1
+    obtain ⟨r, st'⟩ := x
+    cases r with
+    | panic w => exact absurd rfl (h1 w)
+    | ret outs err => simp
+  | recoverer =>
+    simp only [applyC, recoverer]
+    generalize h st = x
+    obtain ⟨r, st'⟩ := x
+    cases r <;> simp
+  | ignoreErrors l =>
+    have h1 := hh st
+    simp only [applyC, ignoreErrors]
+    generalize h st = x at h1
+    obtain ⟨r, st'⟩ := x
+    cases r with
+    | panic w => exact absurd rfl (h1 w)
+    | ret outs err =>
+      cases err with
+      | none => simp
+      | some e =>
+        simp only
+        split
+        · split <;> simp
+        · simp
+  | delayOnError c =>
+    have h1 := hh st
+    simp only [applyC, delayOnError]
+    generalize h st = x at h1
+    obtain ⟨r, st'⟩ := x
+    cases r with
+    | panic w => exact absurd rfl (h1 w)
+    | ret outs err => cases err <;> simp
+
+/-- errors and panic values of non-comparable dynamic types are results like any other: an unlisted one passes unchanged,
+    a listed one (by its text) becomes success, a panic with such a value is recovered into an error carrying it and that
+    error passes an IgnoreErrors above the Recoverer -/
+example : (apply (.ignoreErrors ["boom"]) scripted (exSt [.ret [] (some (.ubase "fields"))])).1 = .ret [] (some (.ubase "fields")) ∧
+    (apply (.ignoreErrors ["fields"]) scripted (exSt [.ret [⟨"a", []⟩] (some (.pkgWrap "ctx" (.ubase "fields")))])).1 = .ret [⟨"a", []⟩] none ∧
+    (run [.ignoreErrors ["boom"], .recoverer] scripted (exSt [.panic (.list "boom")])).1 = .ret [] (some (.recovered (.list "boom"))) := by
+  decide +kernel
+
+/-- a message that was nacked before it reaches InstantAck: the handler is still called, its result passes unchanged, the
+    message stays as it was; under Retry the handler gets Retry's own number of attempts -/
+example : (apply .instantAck scripted { exSt [.ret [⟨"a", []⟩] none] with nacked := true }).1 = .ret [⟨"a", []⟩] none ∧
+    (apply .instantAck scripted { exSt [.ret [] none] with nacked := true }).2.log = [⟨false, false, false, .absent, false, true⟩] ∧
+    (run [.retry 2, .instantAck] scripted { exSt [.ret [] (some (.base "x"))] with nacked := true }).2.log.length = 3 := by
+  decide +kernel
+
+/-- a caller-set deadline beyond Timeout's horizon: during the call the handler sees Timeout's (nearer) deadline; two
+    Timeouts in one chain: the inner, already expired one decides -/
+example : (apply (.timeout false) scripted { exSt [.ret [] none] with ctx := ⟨0, true, false, true⟩ }).2.log = [⟨true, false, false, .absent, false, false⟩] ∧
+    (run [.timeout false, .timeout true] scripted (exSt [.ret [] none])).2.log = [⟨true, true, false, .absent, false, false⟩] := by
+  decide +kernel
+
 /-! ## Composition: the effect ends with the call -/
 
 /-- every stack (any length, any order, Retry included) leaves the message context as it found it, provided the
@@ -384,7 +457,7 @@ theorem simple_calls_inner_once (m : Mw) (hm : m.isRetry = false) :
       | .panic v => (.ret [] (some (.recovered v)), x.2)
       | r => (r, x.2), fun _ _ => rfl⟩
   | ignoreErrors l => exact ⟨id, fun _ x => ignoreErrors l (fun _ => x) default, fun _ _ => rfl⟩
-  | instantAck => exact ⟨fun st => { st with acked := true }, fun _ x => x, fun _ _ => rfl⟩
+  | instantAck => exact ⟨ackMsg, fun _ x => x, fun _ _ => rfl⟩
   | throttle => exact ⟨fun st => { st with ticks := st.ticks + 1 }, fun _ x => x, fun _ _ => rfl⟩
   | breaker => exact ⟨id, fun _ x => x, fun _ _ => rfl⟩
   | delayOnError c => exact ⟨id, fun _ x => delayOnError c (fun _ => x) default, fun _ _ => rfl⟩
